@@ -173,7 +173,7 @@ def supported_top(rng, bare):
             bare.append(n)
             return leaf(n)
         return [n, None, rng.choice(lss), list(d)]
-    vk = lambda: two(V_KPI, [None, None, "FOCUS.Kpi"], [K, PIP])
+    vk = lambda: two(V_KPI, [None, "FOCUS.Kpi", "FOCUS.Kpi"], [K, PIP])
     vp = lambda: two(V_PIPI, [None, None, "kMatrix.pole.1", "kMatrix.prod.0"], [PIP, PIM])
     sk = lambda: two(S_KPI, [None, "FOCUS.Kpi", "FOCUS.I32", "FOCUS.KEta"], [K, PIP])
     sp = lambda: two(S_PIPI, [None, "kMatrix.pole.0", "kMatrix.pole.1", "kMatrix.prod.0", "kMatrix.prod.1"], [PIP, PIM])
